@@ -5,10 +5,13 @@ CONSTANTS
   MaxLen = 6
   MaxC = 1
   MaxAtoms = 1
+  GuardSet = {"none", "other"}
+  Narrow = FALSE
   Shapes = {"one", "chain", "prim"}
   ForeignGuardMisread = TRUE
   StrictPositiveMin = TRUE
   RaiseOnConflict = TRUE
+  NegativeMaxIsError = FALSE
 INVARIANT TypeOK
 INVARIANT PinnedExact
 INVARIANT PinnedUnsatNotOk
